@@ -53,6 +53,7 @@ for _n in ("any", "all", "none", "count"):
     op("bool_" + _n, "xsimd::%s(m)" % _n, "M", ALL_TYPES, "X")
 op("bool_mask", "m.mask()", "M", ALL_TYPES, "X")
 op("bool_land", "m && m2", "MM", ALL_TYPES, "M")
+op("bool_from_mask", "xsimd::batch_bool<T, A>::from_mask(u)", "u", ALL_TYPES, "M")
 op("bool_lor", "m || m2", "MM", ALL_TYPES, "M")
 
 
@@ -132,7 +133,7 @@ def entry_text(opn, tid, aid):
     T, A = TYPES[tid][0], ARCHS[aid][0]
     B = "xsimd::batch<%s, %s>" % (T, A)
     M = "xsimd::batch_bool<%s, %s>" % (T, A)
-    names = {"B": iter(["a", "b", "c"]), "M": iter(["m", "m2"]), "I": iter(["n"]), "S": iter(["s"]), "p": iter(["p"]), "q": iter(["q"]), "Z": iter(["z", "w"]), "Q": iter(["q"]), "x": iter(["pb"]), "y": iter(["qb"]), "U": iter(["pu"]), "V": iter(["qu"]), "J": iter(["idx"]), "k": iter(["pc"]), "l": iter(["qc"])}
+    names = {"B": iter(["a", "b", "c"]), "M": iter(["m", "m2"]), "I": iter(["n"]), "S": iter(["s"]), "p": iter(["p"]), "q": iter(["q"]), "Z": iter(["z", "w"]), "Q": iter(["q"]), "x": iter(["pb"]), "y": iter(["qb"]), "U": iter(["pu"]), "V": iter(["qu"]), "J": iter(["idx"]), "k": iter(["pc"]), "l": iter(["qc"]), "u": iter(["u"])}
     Cb = "xsimd::batch<std::complex<%s>, %s>" % (T, A)
     params, prologue = [], []
     for k in kinds:
@@ -156,6 +157,8 @@ def entry_text(opn, tid, aid):
             params.append("%s* %s" % (T, nm))
         elif k == "Q":
             params.append("%s* %s" % (B, nm))
+        elif k == "u":
+            params.append("uint64_t %s" % nm)
         elif k == "k":
             params.append("std::complex<%s> const* %s" % (T, nm))
         elif k == "l":
